@@ -15,6 +15,10 @@
 (***************************************************************************)
 EXTENDS DocRender, FiniteSets
 
+(* The code as found before the `fix:` commits, selectable per defect (DESIGN.md §8.1).  Empty in every check;
+   bin/selftest overrides it (cfg: `AsFound <- ...`) to show that each design invariant is able to fail. *)
+AsFound == {}
+
 DefaultStyle == [sep |-> ",", d0 |-> "(", d1 |-> ")", tight |-> FALSE, delimSpace |-> FALSE, trailSingle |-> FALSE,
                  trailAlways |-> FALSE, noTrailSep |-> FALSE, omitSingle |-> FALSE, omitFlat |-> FALSE,
                  omitEmpty |-> FALSE, noIndent |-> FALSE]
@@ -58,7 +62,7 @@ Step(c, st, ev) ==
              k == IF ev.n - 1 < c.keep THEN ev.n - 1 ELSE c.keep
              m == Len(s1.items)
          IN IF c.keep >= 0 /\ ev.n >= 2 /\ s1.items # <<>>
-            THEN IF s1.items[m].t = "lb"                        \* blank lines before and after a separator do not add up
+            THEN IF s1.items[m].t = "lb" /\ "F20" \notin AsFound     \* blank lines before and after a separator do not add up
                  THEN [s1 EXCEPT !.items[m].n = IF @ > k THEN @ ELSE k]
                  ELSE [s1 EXCEPT !.items = Append(@, [t |-> "lb", n |-> k])]
             ELSE s1
@@ -92,11 +96,18 @@ PrintDoc(c, st) ==
                                  a1 == Cat(acc, x.body)
                                  a2 == IF sty.noTrailSep /\ lastReal THEN a1 ELSE Cat(a1, sep)
                                  a3 == Cat(a2, x.after)
-                             IN IF ~sty.tight \/ i # n \/ x.endsLC THEN Cat(a3, HL) ELSE a3
+                             IN IF ~sty.tight \/ i # n \/ (x.endsLC /\ "F09a" \notin AsFound) THEN Cat(a3, HL) ELSE a3
           [] x.t = "lb"   -> Cat(acc, Rep(HL, x.n))
       always(acc, x, i) ==
         LET first == \A j \in 1..(i - 1) : st.items[j].t = "lb"
             lead == IF x.t # "lb" /\ ~first THEN Cat(acc, SPACE) ELSE acc IN
+        IF "F10" \in AsFound                                     \* as found: the blank went AFTER a detached comment
+        THEN CASE x.t = "cmt"  -> Cat(acc, IF i = n /\ sty.tight THEN x.doc ELSE Cat(x.doc, SPACE))
+               [] x.t = "item" -> LET lastReal == RealUpTo(st, i) = st.real
+                                      a1 == Cat(acc, Cat(x.body, x.after))
+                                  IN IF ~lastReal THEN Cat(a1, Cat(sep, SPACE)) ELSE IF wantTrail THEN Cat(a1, sep) ELSE a1
+               [] x.t = "lb"   -> acc
+        ELSE
         CASE x.t = "cmt"  -> Cat(lead, x.doc)
           [] x.t = "item" -> LET lastReal == RealUpTo(st, i) = st.real
                                  a1 == Cat(lead, Cat(x.body, x.after))
@@ -112,7 +123,7 @@ PrintDoc(c, st) ==
                                            ELSE IF keepSep THEN sep ELSE Alt(sep, NIL)
                                  ln == IF ~lastReal THEN LINE ELSE IF sty.tight THEN NIL ELSE LINE_
                              IN Cat(acc, Cat(Cat(x.body, follow), ln))
-          [] x.t = "lb"   -> Cat(acc, Rep(LINE_, x.n))
+          [] x.t = "lb"   -> Cat(acc, Rep(IF "F06" \in AsFound THEN LINE ELSE LINE_, x.n))
   IN IF n = 0 THEN (IF sty.omitEmpty THEN NIL ELSE IF sty.delimSpace THEN Cat(Cat(d0, SPACE), d1) ELSE Cat(d0, d1))
      ELSE CASE fold = "never"  -> Enclose(nest(FoldItems(IF sty.tight THEN NIL ELSE HL, st, never, 1)), d0, d1)
             [] fold = "always" -> LET inner == Group(FoldItems(NIL, st, always, 1))
@@ -139,7 +150,7 @@ FirstWs(seq) == LET ix == {i \in 1..Len(seq) : IsWsEv(seq[i])} IN
 Flavor(seq) == IF FirstWs(seq) = "nl" THEN "never" ELSE "fit"
 NItems(seq) == Cardinality({i \in 1..Len(seq) : seq[i].e = "item"})
 
-Instances == {"array", "args", "block", "paren", "dict"}
+Instances == {"array", "args", "block", "paren", "dict", "eq"}
 (* seq = the children between (and without) the delimiters *)
 CfgOf(inst, seq, unit) ==
   LET base == [fold |-> Flavor(seq), noFront |-> FALSE, noDetach |-> FALSE, keep |-> -1, alwaysIf |-> FALSE,
@@ -148,6 +159,12 @@ CfgOf(inst, seq, unit) ==
     [] inst = "dict"  -> base                                                             \* convert_dict (items `k: v`)
     [] inst = "args"  -> [base EXCEPT !.keep = 2]                                         \* convert_parenthesized_args, >= 2 args
     [] inst = "paren" -> [base EXCEPT !.sty.sep = ""]                                     \* convert_parenthesized_impl, can_omit false
+    [] inst = "eq"    ->                                                                  \* convert_equation
+         LET block == Len(seq) >= 2 /\ IsWsEv(seq[1]) /\ IsWsEv(seq[Len(seq)])               \* Equation::block
+             multi == \E i \in 1..Len(seq) : seq[i].e = "nl"                                  \* is_multiline(equation)
+             fold == IF ~block THEN "always" ELSE IF multi THEN "never" ELSE "fit"
+         IN [base EXCEPT !.fold = fold, !.noDetach = (fold = "always"),
+                         !.sty = [DefaultStyle EXCEPT !.sep = "", !.d0 = "$", !.d1 = "$", !.delimSpace = block, !.tight = ~block]]
     [] inst = "block" -> [base EXCEPT !.noFront = TRUE, !.keep = 2,                       \* convert_code_block
                                       !.fold = IF NItems(seq) <= 1 /\ ~\E i \in 1..Len(seq) : seq[i].e \in {"bc", "lc"}
                                                THEN Flavor(seq) ELSE "never",
